@@ -7,6 +7,7 @@ import (
 	"verif/enum"
 	"verif/ref"
 	"verif/run"
+	"verif/spec"
 	"verif/zx"
 )
 
@@ -40,9 +41,18 @@ func init() {
 		New:         func() interface{} { return &enum.BatchCase{} },
 		Gen: func(tier string, emit func(interface{})) {
 			genBatches(tier, func(c enum.BatchCase) { emit(c) })
+			if run.Flavour == "plain" {
+				// one document with 65534 / 65535 fields next to _id (field ids are 16 bits wide)
+				emit(enum.BatchCase{Fam: "manyfields", N: 65534, Mode: 1026})
+				emit(enum.BatchCase{Fam: "manyfields", N: 65535, Mode: 1026})
+			}
 		},
 		Run: func(ci interface{}, a *run.Acc) {
 			c := *ci.(*enum.BatchCase)
+			if c.Fam == "manyfields" {
+				runManyFields(c, a)
+				return
+			}
 			b := c.Batch()
 			exp := ref.FromBatch(b)
 			seg, _, err := zx.Build(b, c.Mode)
@@ -69,6 +79,51 @@ func init() {
 			a.Outcome(fmt.Sprintf("ok/terms=%d", countTerms(exp)))
 		},
 	})
+}
+
+// runManyFields: one document with N fields f000001..fN (term x each) next to _id. A full
+// dump would probe 65536 dictionaries with the whole term universe; the oracle here looks at
+// the first, a middle and the last three fields only. With N = 65535 the last field gets id
+// 65535, which the builder also uses as its "end of document" marker: KNOWN FINDING.
+func runManyFields(c enum.BatchCase, a *run.Acc) {
+	doc := spec.Doc{ID: "many"}
+	for i := 1; i <= c.N; i++ {
+		doc.Fields = append(doc.Fields, spec.Field{Name: fmt.Sprintf("f%06d", i), Len: 1, Toks: []spec.Tok{{Term: "x", Freq: 1}}})
+	}
+	seg, _, err := zx.Build(spec.Batch{Docs: []spec.Doc{doc}}, c.Mode)
+	if err != nil {
+		a.Violation("build-error", fmt.Sprintf("one document with %d fields: %v", c.N, err))
+		return
+	}
+	defer seg.Close()
+	a.NonTrivial(c.Key() + fmt.Sprint(c.N))
+	a.Eval(1)
+	if n := len(seg.Fields()); n != c.N+1 {
+		a.Violation("postings-mismatch", fmt.Sprintf("one document with %d fields + _id: Fields() has %d entries", c.N, n))
+		return
+	}
+	for _, i := range []int{1, 2, c.N / 2, c.N - 2, c.N - 1, c.N} {
+		name := fmt.Sprintf("f%06d", i)
+		dict, err := seg.Dictionary(name)
+		if err != nil {
+			a.Violation("read-error", err.Error())
+			return
+		}
+		pl, err := dict.PostingsList([]byte("x"), nil, nil)
+		if err != nil {
+			a.Violation("read-error", err.Error())
+			return
+		}
+		if pl.Count() != 1 {
+			sig := "postings-mismatch"
+			if i == c.N && c.N == 65535 {
+				sig = "field-number-65535-loses-its-postings"
+			}
+			a.Violation(sig, fmt.Sprintf("one document with %d fields + _id: term x of field %s (field number %d) has %d hits, want 1", c.N, name, i, pl.Count()))
+			return
+		}
+	}
+	a.Outcome("ok/manyfields")
 }
 
 func countTerms(c *ref.Content) int {
